@@ -39,6 +39,7 @@ func init() {
 			{"C09-R6", "TTL policy and signer-expiry clamp", c09r6},
 			{"C09-R7", "XFCC only from trusted peers", c09r7},
 			{"C09-R8", "RA path validates before signing", c09r8},
+			{"C09-R9", "identities are classified, never rewritten, on their way into the SAN", c09r9},
 		},
 	})
 }
@@ -663,4 +664,56 @@ func helperCalls(fn *ssa.Function) []helperCall {
 		out = append(out, helperCall{ci, callee})
 	})
 	return out
+}
+
+// C09-R9: identities are classified, never rewritten. BuildSubjectAltNameExtension turns the authenticated identities
+// into SAN entries; it may look at an identity (is it an IP, does it start with the SPIFFE prefix) but what it encodes is
+// the identity string itself. Every string converted into an Identity.Value is an element of the split identity list,
+// unchanged: no call (ToLower, TrimSpace, Replace, ...) lies between the element and the conversion. The path of a
+// SPIFFE ID is case-sensitive; a "normalised" SAN is an identity the caller never authenticated as.
+func c09r9(c *Ctx) {
+	p := c.P
+	fn := p.Func(pkgPkiUtil, "", "BuildSubjectAltNameExtension")
+	val := p.Field(pkgPkiUtil, "Identity", "Value")
+	n := 0
+	for _, st := range storesTo(fn, val) {
+		cv, ok := st.Val.(*ssa.Convert)
+		if !ok {
+			continue // the IP form: bytes computed from the parsed address
+		}
+		if bt, isB := cv.X.Type().Underlying().(*types.Basic); !isB || bt.Info()&types.IsString == 0 {
+			continue
+		}
+		n++
+		var leaves []ssa.Value
+		phiLeaves(cv.X, map[ssa.Value]bool{}, &leaves)
+		ok2 := len(leaves) > 0
+		what := ""
+		for _, l := range leaves {
+			// an element of a slice: *(&slice[i]) or a range element
+			u, isLoad := l.(*ssa.UnOp)
+			if isLoad && u.Op == token.MUL {
+				if _, isIdx := u.X.(*ssa.IndexAddr); isIdx {
+					continue
+				}
+			}
+			if _, isIdx := l.(*ssa.Index); isIdx {
+				continue
+			}
+			ok2 = false
+			if call, isCall := l.(*ssa.Call); isCall {
+				if o := calleeObj(call); o != nil {
+					what = o.Name()
+				}
+			}
+		}
+		det := "the string encoded as a SAN is not the identity element itself"
+		if what != "" {
+			det += " but the result of " + what
+		}
+		det += ": the certificate then carries an identity that differs from the one authentication established (a SPIFFE ID's path is case-sensitive; trimming or replacing characters likewise yields another workload's identity)"
+		c.Check("the encoded SAN is the authenticated identity string itself", st.Pos(), ok2, det)
+	}
+	c.Check("BuildSubjectAltNameExtension encodes string identities", fn.Pos(), n >= 2, "fewer string-to-bytes conversions into Identity.Value than confirmed by hand (URI and DNS forms)")
+	c.Floor(3)
 }
